@@ -23,11 +23,25 @@ Theorem C10_best_pep_order_independent : forall pep rows rows' m ps m' ps',
 Proof. exact best_pep_order_independent. Qed.
 Print Assumptions C10_best_pep_order_independent.
 
-(* modifications in (..), [..] or two-level parentheses are stripped; the residues stay *)
-Theorem C10_strip_mods_spec : forall toks, Forall wf_tok toks ->
-  remove_modifications (flat_map render toks) = flat_map residues toks.
+(* modifications in (..), [..] or two-level parentheses are stripped, and so is the hyphen that attaches a terminal modification
+   in ProForma notation ("[m]-" before, "-[m]" after the sequence); exactly the residues stay *)
+Theorem C10_strip_mods_spec : forall toks n c, Forall wf_tok toks -> plain_opt n -> plain_opt c ->
+  (forall x, In x (flat_map residues toks) -> x <> dash) ->
+  remove_modifications (nterm n ++ flat_map render toks ++ cterm c) = flat_map residues toks.
 Proof. exact strip_mods_spec. Qed.
 Print Assumptions C10_strip_mods_spec.
+
+(* without the hypothesis on the residues: what is left is the residues minus the hyphens at both ends *)
+Theorem C10_strip_mods_general : forall toks, Forall wf_tok toks ->
+  remove_modifications (flat_map render toks) = strip_chr dash (flat_map residues toks).
+Proof. exact strip_mods_general. Qed.
+Print Assumptions C10_strip_mods_general.
+
+(* non-vacuity: Sage / mokapot N-terminal notation, MaxQuant nested parentheses *)
+Example C10_strip_witness :
+  remove_modifications (s2l "[+42.0106]-PEPM[+15.9949]TIDEK") = s2l "PEPMTIDEK" /\
+  remove_modifications (s2l "(ac)PEPM(Oxidation (M))K-[UNIMOD:737]") = s2l "PEPMK".
+Proof. split; vm_compute; reflexivity. Qed.
 
 (* a protein list containing a target loses its decoy entries *)
 Theorem C10_purge_spec : forall ps, pure (remove_decoy_proteins_from_target_peptides ps).
